@@ -14,7 +14,7 @@ META = {
              'its class is the class the Mode documentation names; FST(result.src, mode) re-parses to the same dump(include_attributes) and, where an embedding exists, '
              'CPython agrees; the NAME/NUMBER/STRING token sequence of the result equals that of the operand (keywords/introducers of either kind removed); operand of the '
              'requested kind is returned unchanged; formatted route and pure-AST route give equal structure; copy-mode entries leave the operand snapshot unchanged, also '
-             'when coercion raises; put-with-coercion gives the same structure as put of the explicitly converted node. A cell is (operand class, target mode, entry, outcome).'),
+             'when coercion raises; put-with-coercion gives the same structure as put of the explicitly converted node. A cell is (operand class, target mode, entry, outcome). Every operand is also tried with its single-letter identifiers renamed to multi-byte names (char columns != byte columns).'),
     'budget': {'quick': 45, 'thorough': 900},
     'floors': {'quick': {'coercions_attempted': 30000, 'coercions_succeeded': 6000, 'content_compared': 5000, 'operand_intact_checks': 20000},
                'thorough': {'coercions_attempted': 600000, 'coercions_succeeded': 120000, 'content_compared': 100000, 'operand_intact_checks': 400000}},
